@@ -945,7 +945,12 @@ var Prop = &harness.Prop{
 		for _, capacity := range []int{1, 2} {
 			u = append(u, reconnectUnit(0x0303, capacity, rdepth), reconnectUnit(0x0301, capacity, rdepth-1), reconnectUnit(0, capacity, rdepth-1))
 		}
-		u = append(u, bigCertUnit(true), bigCertUnit(false), cloneFieldsUnit(), implicitHandshakeUnit(), nestedSessionsUnit(0), nestedSessionsUnit(1), nestedSessionsUnit(2))
+		u = append(u, bigCertUnit(true), bigCertUnit(false), cloneFieldsUnit(), implicitHandshakeUnit())
+		for fa := 0; fa < 3; fa++ {
+			for fb := 0; fb < 3; fb++ {
+				u = append(u, nestedSessionsUnit(fa, fb))
+			}
+		}
 		u = append(u, serverChainUnit(true, 0), serverChainUnit(false, 0x0301), serverChainUnit(false, 0x0303))
 		for _, sp := range supplyPaths() {
 			u = append(u, certSupplyUnit(sp))
